@@ -7,7 +7,7 @@
 //! A failure (or a stop instruction) unwinds the whole chain of interrupted handlers.
 
 use crate::agent::{Rec, Top};
-use crate::ast::{is_value, Obs, Src, Tables, HK, P};
+use crate::ast::{arm_of, is_value, to_val, try_fails, How, Obs, Src, Tables, HK, P, V};
 use serde::{Deserialize, Serialize};
 use std::collections::BTreeMap;
 
@@ -83,12 +83,53 @@ pub struct Stats {
     pub mutations: usize,
     pub spawns: usize,
     pub branches: usize,
+    /// Executed and_then / and_then_contextual / and_then_try nodes.
+    pub binds: [usize; 3],
+    pub computed_mutations: usize,
+    /// Nesting depth of value producing combinators that was executed.
+    pub max_value_depth: usize,
+    /// A combinator's operand `program.followed_by(value)` whose program mutates a lane was executed.
+    pub multi_step_first: bool,
     pub noop_removes: usize,
     pub empty_clears: usize,
     pub same_value_sets: usize,
 }
 
 pub const RECORD_BUDGET: usize = 4000;
+
+/// Marker left by the most recent lane mutation of the current frame, after its cascade completed.
+#[derive(Clone)]
+struct LastMut {
+    /// Length of `out` / `spawned` before the cascade's first record.
+    out_len: usize,
+    spawned_len: usize,
+    /// The model right after the mutation itself, before any triggered handler ran.
+    model: Model,
+    quirks_len: usize,
+}
+
+/// The places where the implementation evaluates a continuation closure in the *same step* in which the
+/// first operand completed with a lane modification, i.e. before the handlers triggered by that
+/// modification run.
+#[derive(Clone, Copy, Debug, PartialEq, Eq, PartialOrd, Ord)]
+pub enum Quirk {
+    /// `and_then_contextual`: the closure reads the agent before the triggered handlers ran.
+    CtxBeforeCascade,
+    /// `and_then_try`: the closure fails, the modification (and its handlers) is dropped.
+    AndThenTryDrops,
+    /// `try_handler`: the result is `Err`, the modification (and its handlers) is dropped.
+    TryHandlerDrops,
+}
+
+impl Quirk {
+    pub fn sig(&self) -> &'static str {
+        match self {
+            Quirk::CtxBeforeCascade => "continuation-runs-before-triggered-handlers:and_then_contextual",
+            Quirk::AndThenTryDrops => "modification-dropped-on-failure:and_then_try",
+            Quirk::TryHandlerDrops => "modification-dropped-on-failure:try_handler",
+        }
+    }
+}
 
 pub struct Ref<'a> {
     pub t: &'a Tables,
@@ -97,6 +138,44 @@ pub struct Ref<'a> {
     pub spawned: Vec<u16>,
     pub stats: Stats,
     overflow: bool,
+    /// The last executed step of the current frame completed with a (triggering) lane modification.
+    tail: bool,
+    last_mut: Option<LastMut>,
+    /// false: documented semantics; true: mirror the implementation at the `Quirk` sites.
+    pub quirk_mode: bool,
+    /// Quirk sites met while executing the current block.
+    pub quirks: Vec<Quirk>,
+}
+
+fn how_index(h: How) -> usize {
+    match h {
+        How::Then => 0,
+        How::Ctx(_) => 1,
+        How::Try => 2,
+    }
+}
+
+fn vdepth(v: &V) -> usize {
+    match v {
+        V::Get(_) | V::Const(_) => 0,
+        V::Of(..) => 1,
+        V::After(_, v) | V::Map(v, _) | V::Opt(v) | V::Try(v) => 1 + vdepth(v),
+        V::Bind { first, arms, .. } => 1 + arms.iter().map(vdepth).max().unwrap_or(0).max(vdepth(first)),
+        V::Join(a, b) => 1 + vdepth(a).max(vdepth(b)),
+        V::Join3(a, b, c) => 1 + vdepth(a).max(vdepth(b)).max(vdepth(c)),
+    }
+}
+
+/// Does the program contain a lane mutation (so that, as the first operand of a combinator, it reports a
+/// modification in a step that is not the combinator's last)?
+fn mutates_before_end(p: &P) -> bool {
+    match p {
+        P::Set { .. } | P::Upd { .. } | P::Rem { .. } | P::Clr { .. } | P::MutV { .. } => true,
+        P::Seq(ps) => ps.iter().any(mutates_before_end),
+        P::Then(a, b) => mutates_before_end(a) || mutates_before_end(b),
+        P::Branch { arms, .. } => arms.iter().any(mutates_before_end),
+        _ => false,
+    }
 }
 
 fn bit(lane: u8) -> u8 {
@@ -105,10 +184,22 @@ fn bit(lane: u8) -> u8 {
 
 impl<'a> Ref<'a> {
     pub fn new(t: &'a Tables) -> Self {
-        Ref { t, model: Model::default(), out: vec![], spawned: vec![], stats: Stats::default(), overflow: false }
+        Ref {
+            t,
+            model: Model::default(),
+            out: vec![],
+            spawned: vec![],
+            stats: Stats::default(),
+            overflow: false,
+            tail: false,
+            last_mut: None,
+            quirk_mode: false,
+            quirks: vec![],
+        }
     }
 
     fn push(&mut self, r: Rec) {
+        self.tail = false;
         if self.out.len() >= RECORD_BUDGET {
             self.overflow = true;
         } else {
@@ -130,7 +221,18 @@ impl<'a> Ref<'a> {
         (flow, fs.sum)
     }
 
-    fn after_cascade(&mut self, fs: &mut FrameState, lane: u8, casc: Sum) {
+    fn mark(&self) -> LastMut {
+        LastMut {
+            out_len: self.out.len(),
+            spawned_len: self.spawned.len(),
+            model: self.model.clone(),
+            quirks_len: self.quirks.len(),
+        }
+    }
+
+    fn after_cascade(&mut self, fs: &mut FrameState, lane: u8, casc: Sum, mark: LastMut) {
+        self.tail = true;
+        self.last_mut = Some(mark);
         fs.sum.lanes |= bit(lane) | casc.lanes;
         fs.sum.depth = fs.sum.depth.max(casc.depth);
         fs.any_dirty |= casc.lanes;
@@ -146,17 +248,18 @@ impl<'a> Ref<'a> {
         if prev == v {
             self.stats.same_value_sets += 1;
         }
+        let mark = self.mark();
         // on_event then on_set, both with the value that was set
         let (flow, s1) = self.handler(lane, HK::OnEvent, Rec::OnEvent { lane, v }, depth + 1);
         let mut casc = Sum { depth: 1 + s1.depth, lanes: s1.lanes };
         if flow != Flow::Done {
-            self.after_cascade(fs, lane, casc);
+            self.after_cascade(fs, lane, casc, mark);
             return flow;
         }
         let (flow, s2) = self.handler(lane, HK::OnSet, Rec::OnSet { lane, v, prev: Some(prev) }, depth + 1);
         casc.depth = casc.depth.max(1 + s2.depth);
         casc.lanes |= s2.lanes;
-        self.after_cascade(fs, lane, casc);
+        self.after_cascade(fs, lane, casc, mark);
         flow
     }
 
@@ -164,8 +267,9 @@ impl<'a> Ref<'a> {
         self.stats.mutations += 1;
         let prev = self.model.m[(lane / 2) as usize].insert(k, v);
         let map = self.model.snapshot(lane);
+        let mark = self.mark();
         let (flow, s) = self.handler(lane, HK::OnUpdate, Rec::OnUpdate { lane, k, prev, v, map }, depth + 1);
-        self.after_cascade(fs, lane, Sum { depth: 1 + s.depth, lanes: s.lanes });
+        self.after_cascade(fs, lane, Sum { depth: 1 + s.depth, lanes: s.lanes }, mark);
         flow
     }
 
@@ -174,13 +278,15 @@ impl<'a> Ref<'a> {
             // removing an absent key changes nothing and triggers nothing (map_storage::remove)
             None => {
                 self.stats.noop_removes += 1;
+                self.tail = false;
                 Flow::Done
             }
             Some(prev) => {
                 self.stats.mutations += 1;
                 let map = self.model.snapshot(lane);
+                let mark = self.mark();
                 let (flow, s) = self.handler(lane, HK::OnRemove, Rec::OnRemove { lane, k, prev, map }, depth + 1);
-                self.after_cascade(fs, lane, Sum { depth: 1 + s.depth, lanes: s.lanes });
+                self.after_cascade(fs, lane, Sum { depth: 1 + s.depth, lanes: s.lanes }, mark);
                 flow
             }
         }
@@ -193,8 +299,9 @@ impl<'a> Ref<'a> {
             self.stats.empty_clears += 1;
         }
         self.model.m[(lane / 2) as usize].clear();
+        let mark = self.mark();
         let (flow, s) = self.handler(lane, HK::OnClear, Rec::OnClear { lane, prev }, depth + 1);
-        self.after_cascade(fs, lane, Sum { depth: 1 + s.depth, lanes: s.lanes });
+        self.after_cascade(fs, lane, Sum { depth: 1 + s.depth, lanes: s.lanes }, mark);
         flow
     }
 
@@ -210,12 +317,149 @@ impl<'a> Ref<'a> {
         o
     }
 
+    /// The implementation at a quirk site: undo the cascade of the modification that completed the first
+    /// operand (the handlers never run; the state change itself stays).
+    fn drop_last_cascade(&mut self) {
+        if let Some(lm) = self.last_mut.take() {
+            self.out.truncate(lm.out_len);
+            self.spawned.truncate(lm.spawned_len);
+            self.quirks.truncate(lm.quirks_len);
+            self.model = lm.model;
+        }
+    }
+
+    /// Evaluate the first operand of an `and_then` / `and_then_contextual` / `and_then_try` and apply the
+    /// continuation closure's own effects.
+    fn bound(&mut self, first: &V, how: How, fs: &mut FrameState, depth: usize) -> (Flow, i64) {
+        let (f, x) = self.eval(first, fs, depth);
+        if f != Flow::Done {
+            return (f, x);
+        }
+        // did `first` complete in the very step that modified a lane?
+        let coincides = self.tail && self.last_mut.is_some();
+        match how {
+            How::Then => {}
+            How::Ctx(src) => {
+                if coincides {
+                    self.quirks.push(Quirk::CtxBeforeCascade);
+                }
+                if coincides && self.quirk_mode {
+                    // the closure ran before the triggered handlers: it saw the state right after the
+                    // modification, and its record precedes theirs
+                    let lm = self.last_mut.clone().unwrap();
+                    let o = lm.model.read(src);
+                    self.out.insert(lm.out_len, Rec::CtxGot(src, o));
+                } else {
+                    if fs.deep_dirty & bit(src.lane()) != 0 {
+                        self.stats.nontrivial = true;
+                    }
+                    let o = self.model.read(src);
+                    self.push(Rec::CtxGot(src, o));
+                }
+                self.tail = false;
+            }
+            How::Try => {
+                if try_fails(x) {
+                    if coincides {
+                        if self.quirk_mode {
+                            self.drop_last_cascade();
+                        }
+                        self.quirks.push(Quirk::AndThenTryDrops);
+                    }
+                    return (Flow::Fail, x);
+                }
+            }
+        }
+        (Flow::Done, x)
+    }
+
+    /// Value producing actions: strictly left to right, each sub-action to completion.
+    fn eval(&mut self, v: &V, fs: &mut FrameState, depth: usize) -> (Flow, i64) {
+        if self.overflow {
+            return (Flow::Overflow, 0);
+        }
+        self.stats.max_value_depth = self.stats.max_value_depth.max(vdepth(v));
+        match v {
+            V::Get(src) => (Flow::Done, self.read(*src, fs).scalar()),
+            V::Const(c) => {
+                self.tail = false;
+                (Flow::Done, *c as i64)
+            }
+            V::After(p, v) => {
+                if mutates_before_end(p) {
+                    self.stats.multi_step_first = true;
+                }
+                let f = self.run(p, fs, depth);
+                if f != Flow::Done {
+                    return (f, 0);
+                }
+                self.eval(v, fs, depth)
+            }
+            V::Of(p, c) => {
+                if mutates_before_end(p) {
+                    self.stats.multi_step_first = true;
+                }
+                (self.run(p, fs, depth), *c as i64)
+            }
+            V::Map(v, c) => {
+                let (f, x) = self.eval(v, fs, depth);
+                (f, x.wrapping_add(*c as i64))
+            }
+            V::Bind { first, how, arms } => {
+                self.stats.binds[how_index(*how)] += 1;
+                let (f, x) = self.bound(first, *how, fs, depth);
+                if f != Flow::Done {
+                    return (f, 0);
+                }
+                self.eval(&arms[arm_of(x, arms.len())], fs, depth)
+            }
+            V::Join(a, b) => {
+                let (f, x) = self.eval(a, fs, depth);
+                if f != Flow::Done {
+                    return (f, 0);
+                }
+                let (f, y) = self.eval(b, fs, depth);
+                (f, x.wrapping_add(y))
+            }
+            V::Join3(a, b, c) => {
+                let (f, x) = self.eval(a, fs, depth);
+                if f != Flow::Done {
+                    return (f, 0);
+                }
+                let (f, y) = self.eval(b, fs, depth);
+                if f != Flow::Done {
+                    return (f, 0);
+                }
+                let (f, z) = self.eval(c, fs, depth);
+                (f, x.wrapping_add(y).wrapping_add(z))
+            }
+            V::Opt(v) => self.eval(v, fs, depth),
+            V::Try(v) => {
+                let (f, x) = self.eval(v, fs, depth);
+                if f == Flow::Done && try_fails(x) {
+                    if self.tail && self.last_mut.is_some() {
+                        if self.quirk_mode {
+                            self.drop_last_cascade();
+                        }
+                        self.quirks.push(Quirk::TryHandlerDrops);
+                    }
+                    (Flow::Fail, x)
+                } else {
+                    (f, x)
+                }
+            }
+        }
+    }
+
     fn run(&mut self, p: &P, fs: &mut FrameState, depth: usize) -> Flow {
         if self.overflow {
             return Flow::Overflow;
         }
         match p {
             P::Seq(ps) => {
+                if ps.is_empty() {
+                    self.tail = false;
+                }
                 for q in ps {
                     let f = self.run(q, fs, depth);
                     if f != Flow::Done {
@@ -235,15 +479,25 @@ impl<'a> Ref<'a> {
             P::Upd { lane, k, v } => self.upd(*lane, *k, *v, fs, depth),
             P::Rem { lane, k } => self.rem(*lane, *k, fs, depth),
             P::Clr { lane } => self.clr(*lane, fs, depth),
-            P::Get { src } => {
-                self.read(*src, fs);
-                Flow::Done
-            }
-            P::Branch { src, arms } => {
+            P::Discard(v) => self.eval(v, fs, depth).0,
+            P::Branch { first, how, arms } => {
                 self.stats.branches += 1;
-                let o = self.read(*src, fs);
-                let arm = &arms[o.scalar().rem_euclid(arms.len() as i64) as usize];
-                self.run(arm, fs, depth)
+                self.stats.binds[how_index(*how)] += 1;
+                let (f, x) = self.bound(first, *how, fs, depth);
+                if f != Flow::Done {
+                    return f;
+                }
+                self.run(&arms[arm_of(x, arms.len())], fs, depth)
+            }
+            P::MutV { first, how, target, off } => {
+                self.stats.computed_mutations += 1;
+                self.stats.binds[how_index(*how)] += 1;
+                let (f, x) = self.bound(first, *how, fs, depth);
+                if f != Flow::Done {
+                    return f;
+                }
+                let m = target.with_value(to_val(x, *off));
+                self.run(&m, fs, depth)
             }
             P::Eff(l) => {
                 self.push(Rec::Eff(*l));
@@ -264,6 +518,9 @@ impl<'a> Ref<'a> {
     pub fn block(&mut self, trig: &Trigger) -> (Vec<Rec>, Flow, Vec<u16>) {
         self.out.clear();
         self.spawned.clear();
+        self.quirks.clear();
+        self.tail = false;
+        self.last_mut = None;
         let mut fs = FrameState::default();
         let t = self.t;
         static EMPTY: P = P::Seq(vec![]);
@@ -301,13 +558,33 @@ pub fn worst_case_records(t: &Tables, runs: &[u16], ext_muts: usize) -> u64 {
     // lane handler costs, highest lane first (handlers only touch higher lanes)
     let mut lane_cost = [0u64; 4]; // cost of one mutation of lane i (all handlers it triggers)
     let mut spawn_cost = vec![0u64; t.spawn.len()];
+    fn vcost(v: &V, lane_cost: &[u64; 4], spawn_cost: &[u64]) -> u64 {
+        match v {
+            V::Get(_) => 1,
+            V::Const(_) => 0,
+            V::After(p, v) => cost(p, lane_cost, spawn_cost).saturating_add(vcost(v, lane_cost, spawn_cost)),
+            V::Of(p, _) => cost(p, lane_cost, spawn_cost),
+            V::Map(v, _) | V::Opt(v) | V::Try(v) => vcost(v, lane_cost, spawn_cost),
+            V::Bind { first, arms, .. } => vcost(first, lane_cost, spawn_cost)
+                .saturating_add(arms.iter().map(|a| vcost(a, lane_cost, spawn_cost)).max().unwrap_or(0)),
+            V::Join(a, b) => vcost(a, lane_cost, spawn_cost).saturating_add(vcost(b, lane_cost, spawn_cost)),
+            V::Join3(a, b, c) => vcost(a, lane_cost, spawn_cost)
+                .saturating_add(vcost(b, lane_cost, spawn_cost))
+                .saturating_add(vcost(c, lane_cost, spawn_cost)),
+        }
+    }
     fn cost(p: &P, lane_cost: &[u64; 4], spawn_cost: &[u64]) -> u64 {
         match p {
             P::Seq(ps) => ps.iter().fold(0u64, |a, q| a.saturating_add(cost(q, lane_cost, spawn_cost))),
             P::Then(a, b) => cost(a, lane_cost, spawn_cost).saturating_add(cost(b, lane_cost, spawn_cost)),
             P::Set { lane, .. } | P::Upd { lane, .. } | P::Rem { lane, .. } | P::Clr { lane } => lane_cost[*lane as usize],
-            P::Get { .. } | P::Eff(_) => 1,
-            P::Branch { arms, .. } => 1 + arms.iter().map(|a| cost(a, lane_cost, spawn_cost)).max().unwrap_or(0),
+            P::Eff(_) => 1,
+            P::Discard(v) => vcost(v, lane_cost, spawn_cost),
+            P::Branch { first, arms, .. } => vcost(first, lane_cost, spawn_cost)
+                .saturating_add(arms.iter().map(|a| cost(a, lane_cost, spawn_cost)).max().unwrap_or(0)),
+            P::MutV { first, target, .. } => {
+                vcost(first, lane_cost, spawn_cost).saturating_add(cost(target, lane_cost, spawn_cost))
+            }
             P::Suspend { prog, .. } => 1u64.saturating_add(spawn_cost.get(*prog as usize).copied().unwrap_or(0)),
             P::Fail | P::Stop => 0,
         }
@@ -380,6 +657,10 @@ pub struct Report {
     pub start_stopped: bool,
     pub on_stop_ran: bool,
     pub overflow: bool,
+    /// Blocks that matched only the implementation's behaviour at a `Quirk` site.
+    pub quirk_blocks: usize,
+    /// Quirk sites executed (documented-mode count).
+    pub quirk_sites: usize,
 }
 
 fn mismatch_sig(exp: &Rec, got: Option<&Rec>) -> String {
@@ -400,6 +681,7 @@ fn mismatch_sig(exp: &Rec, got: Option<&Rec>) -> String {
         }
         (Rec::OnClear { lane: l1, prev: p1 }, Rec::OnClear { lane: l2, prev: p2 }) if l1 == l2 && p1 != p2 => "wrong-previous:on_clear".into(),
         (Rec::Got(s1, o1), Rec::Got(s2, o2)) if s1 == s2 && o1 != o2 => "wrong-read:resumed-handler-saw-other-state".into(),
+        (Rec::CtxGot(s1, o1), Rec::CtxGot(s2, o2)) if s1 == s2 && o1 != o2 => "wrong-read:continuation-saw-other-state".into(),
         (a, b) if a.kind() == b.kind() => format!("payload:{}", a.kind()),
         (a, b) => format!("order:expected={},observed={}", a.kind(), b.kind()),
     }
@@ -557,24 +839,53 @@ pub fn verify(t: &Tables, trace: &[Rec], sent: &[Cmd], outcome: &Outcome) -> Rep
             }
         }
         // --- expected records of this block from the model state at its start
-        let (exp, flow, spawned) = r.block(&trig);
+        let start_model = r.model.clone();
+        r.quirk_mode = false;
+        let (mut exp, mut flow, mut spawned) = r.block(&trig);
         if flow == Flow::Overflow {
             rep.overflow = true;
             broken = true;
             break;
         }
         rep.blocks += 1;
-        let mut bad = None;
-        for (i, e) in exp.iter().enumerate() {
-            match trace.get(pos + i) {
-                Some(g) if g == e => {}
-                other => {
-                    bad = Some((i, e.clone(), other.cloned()));
-                    break;
+        rep.quirk_sites += r.quirks.len();
+        let first_diff = |exp: &[Rec]| -> Option<usize> { (0..exp.len()).find(|i| trace.get(pos + i) != Some(&exp[*i])) };
+        let mut bad = first_diff(&exp);
+        if bad.is_some() && !r.quirks.is_empty() {
+            // the block contains a site where the implementation evaluates a continuation closure before the
+            // handlers triggered by the first operand's last step: does the observed trace match that?
+            let doc_model = std::mem::replace(&mut r.model, start_model);
+            r.quirk_mode = true;
+            let (exp2, flow2, spawned2) = r.block(&trig);
+            r.quirk_mode = false;
+            if flow2 != Flow::Overflow && first_diff(&exp2).is_none() {
+                let mut qs = r.quirks.clone();
+                qs.sort();
+                qs.dedup();
+                for q in qs {
+                    fail!(
+                        q.sig(),
+                        "block {:?} starting at {}: the observed records equal the execution in which the continuation closure is \
+                         evaluated in the same step as the first operand's final lane modification (before / instead of the handlers \
+                         that modification triggers), not the documented depth-first order.\n documented = {:?}\n observed   = {:?}",
+                        trig,
+                        pos,
+                        exp,
+                        exp2
+                    );
                 }
+                rep.quirk_blocks += 1;
+                exp = exp2;
+                flow = flow2;
+                spawned = spawned2;
+                bad = None;
+            } else {
+                r.model = doc_model;
             }
         }
-        if let Some((i, e, g)) = bad {
+        if let Some(i) = bad {
+            let e = exp[i].clone();
+            let g = trace.get(pos + i).cloned();
             fail!(
                 mismatch_sig(&e, g.as_ref()),
                 "block {:?} starting at {}: record {} differs: expected {:?}, observed {:?}\n expected block = {:?}\n {}",
